@@ -241,6 +241,15 @@ func (maps *trackedMaps) processUnfiltered(ctx context.Context, ef *Filter, filt
 				}
 				v.SetMapIndex(key, vv)
 
+			// a defined string or []byte type (type Status string, json.RawMessage,
+			// ...) is unclassified data as well; it keeps its type.
+			case isStringOrBytes(field):
+				f, err := ef.filterUnclassifiedValue(ctx, field, classificationTag, opt...)
+				if err != nil {
+					return fmt.Errorf("%s: unable to filter %s: %w", op, ftype, err)
+				}
+				v.SetMapIndex(key, f)
+
 			case fkind == reflect.Slice:
 				switch {
 				// if the field is a slice of string or slice of []byte
